@@ -195,7 +195,16 @@ type DataMsg struct {
 	DebugStores map[string]string
 }
 
+type SeqItem struct {
+	Kind    string // data | undo
+	Num     uint64
+	ID      string
+	Payload string
+	Cursor  string
+}
+
 type Result struct {
+	Seq        []SeqItem // data and undo messages in arrival order
 	Err        error
 	Session    *pbsubstreamsrpc.SessionInit
 	Data       []DataMsg
@@ -238,9 +247,11 @@ func (c *collector) Collect(respAny substreams.ResponseFromAnyTier) error {
 			dm.DebugStores[so.Name] = renderDebugDeltas(so.DebugStoreDeltas)
 		}
 		c.res.Data = append(c.res.Data, dm)
+		c.res.Seq = append(c.res.Seq, SeqItem{Kind: "data", Num: dm.Num, ID: dm.ID, Payload: dm.Payload, Cursor: dm.Cursor})
 		c.res.Events = append(c.res.Events, fmt.Sprintf("data:%d:%s", dm.Num, dm.ID))
 	case *pbsubstreamsrpc.Response_BlockUndoSignal:
 		c.res.Undos = append(c.res.Undos, m.BlockUndoSignal)
+		c.res.Seq = append(c.res.Seq, SeqItem{Kind: "undo", Num: m.BlockUndoSignal.LastValidBlock.Number, ID: m.BlockUndoSignal.LastValidBlock.Id, Cursor: m.BlockUndoSignal.LastValidCursor})
 		c.res.Events = append(c.res.Events, fmt.Sprintf("undo:%d:%s", m.BlockUndoSignal.LastValidBlock.Number, m.BlockUndoSignal.LastValidBlock.Id))
 	}
 	return nil
